@@ -12,7 +12,10 @@
 
    Deliberate restrictions (every one of them is fail-closed: the interpreter answers [Unsupported], which is
    never equal to an outcome of the hand model, so a theorem of EngPy_tie.v cannot hold by accident):
-     * Python ints are naturals (N, unbounded).  A subtraction whose result would be negative is Unsupported.
+     * Python ints are unbounded: VInt n (not negative) or VNeg p (the negative number -p).  Operations on two
+       non-negative ints are computed in N; as soon as a negative int is involved they are computed in Z (Z.land, Z.modulo ..
+       are Python's &, % .. on negative numbers); Proofs/PyIRProps.v proves that the two computations agree.
+       A shift by a negative count (ValueError) and an index that is negative (counting from the end) are Unsupported.
      * bool and int are kept apart: arithmetic on a bool, comparison of non-ints, truth value of a
        tuple/string are Unsupported.
      * reading an unbound variable is Unsupported (CPython: UnboundLocalError).
@@ -24,7 +27,7 @@
        attribute that owns it (self.<f>.append(..)), so that copying instead of sharing cannot be observed.
      * `%` by zero (ZeroDivisionError), range() with a step that is not positive, sorting anything else than pairs of
        ints are Unsupported. *)
-From FJ Require Import Lib.Base.
+From FJ Require Import Lib.Base Lib.Bytes.
 Local Open Scope N_scope.
 
 (* ---- 1. syntax -------------------------------------------------------------------------------- *)
@@ -32,6 +35,7 @@ Definition ident := positive.          (* local variable; the translator prints 
 
 Inductive value :=
 | VInt (n : N)
+| VNeg (p : positive)                  (* the int -p *)
 | VBool (b : bool)
 | VNone
 | VPair (a b : value)                  (* the only tuples used: `return x, y` / `x, y = f(..)` *)
@@ -58,7 +62,14 @@ Inductive fname :=
 | F_std_init | F_std_read_bit | F_std_write_bit | F_std_get_output
 | P_stdin_read | P_stdout_write | P_stdout_flush      (* stdin.read(n) / stdout.write(s) / stdout.flush() *)
 (* the loader (C06/C10): Reader._init_memory and Reader._validate_segments *)
-| F_init_memory | F_validate_segments.
+| F_init_memory | F_validate_segments
+(* the writer (C06): methods of fjm_writer.Writer *)
+| F_w_add_data | F_w_add_segment | F_w_add_simple_segment_with_data | F_w_is_collision
+| F_w_validate_segment_addresses_not_overlapping | F_w_validate_segment_data_not_overlapping
+| F_w_validate_segment_not_overlapping | F_w_update_to_relative_jumps | F_w_get_segment_addresses_repr
+| F_w_write_to_file
+| P_file_open | P_file_write                (* `with open(path, 'wb') as f` / f.write(b): the output stream is the file *)
+| P_compress_data.                          (* Writer._compress_data(b): lzma as an oracle, LZMAError -> the library error *)
 
 (* the target of a `for` / comprehension: a name or a tuple of targets *)
 Inductive pattern := PVar (x : ident) | PTuple (l : list pattern).
@@ -78,6 +89,7 @@ Inductive expr :=
 | EMemGet (k : expr)                   (* self.memory[k]  - KeyError when absent *)
 | ECall0 (f : fname) | ECall1 (f : fname) (a : expr) | ECall2 (f : fname) (a b : expr)
 | ECall3 (f : fname) (a b c : expr)
+| ECall4 (f : fname) (a b c d : expr)
 | ETerm (cause : N)                    (* TerminationStatistics(statistics, TerminationCause.<cause>) *)
 | EUnsupported                         (* print(..), sleep(..), breakpoint machinery *)
 | EField (f : ident)                   (* self.<f> of a device object *)
@@ -91,7 +103,15 @@ Inductive expr :=
 | ERange (lo hi step : expr)           (* range(lo, hi, step) as the list of its elements *)
 | EListComp (elt : expr) (p : pattern) (it : expr)     (* [elt for p in it] / the generator (elt for p in it) consumed at once *)
 | ESorted (a : expr)                   (* sorted(a) on pairs of ints (lexicographic) *)
-| EZip (a b : expr).                   (* zip(a, b) consumed at once *)
+| EZip (a b : expr)                    (* zip(a, b) consumed at once *)
+| ECons (a r : expr)                   (* a display (a, b, c, ..) / [a, b, ..] is ECons a (ECons b (.. ENil)) *)
+| EEnumerate (a : expr)                (* enumerate(a) consumed at once: the pairs (index, element) *)
+| EAny (a : expr)                      (* any(a) on a list of bools computed at once (the elements are call-free) *)
+| EFormat (a : expr)                   (* an f-string: its formatted expressions (a display) are evaluated; the text is not modelled *)
+| EHex (a : expr)                      (* hex(a) of an int *)
+| EDictGet (l : list (N * N)) (k : expr) (* {k1: v1, ..}[k] on a display with int constants; KeyError when k is missing *)
+| EPack (sizes : list nat) (args : expr)       (* struct.pack('<..', *args): one unsigned little-endian field per size *)
+| EPackN (count size args : expr).     (* struct.pack(f'<{count}{code of size}', *args) *)
 
 Inductive exn :=
 | XKeyError                            (* KeyError of a dict read *)
@@ -100,6 +120,7 @@ Inductive exn :=
 | XIncomplete                          (* IncompleteOutput *)
 | XOverflow                            (* OverflowError of int.to_bytes *)
 | XIndex                               (* IndexError of x[k] *)
+| XStruct                              (* struct.error *)
 | XLib (tag : N).                      (* a library exception with a message; tag = which message (translator table) *)
 Inductive exn_class := KKeyError | KEOF.       (* what an `except` clause of the subset can name *)
 
@@ -122,7 +143,9 @@ Inductive stmt :=
 | SRaiseExn (x : exn) (msg : expr)                 (* raise IOReadOnEOF(msg) / IncompleteOutput(msg) / library error *)
 | SMemClear                                        (* self.memory = {} *)
 | SFieldAppend (f : ident) (e : expr)              (* self.<f>.append(e) *)
-| SFor (p : pattern) (it : expr) (body : stmt).    (* for p in it: body   (no break / continue / else) *)
+| SFor (p : pattern) (it : expr) (body : stmt)     (* for p in it: body   (no break / else) *)
+| SContinue                                        (* continue *)
+| SFieldItemSet (f : ident) (k v : expr).          (* self.<f>[k] = v    on a list owned by the attribute *)
 
 (* ---- 2. state and outcomes -------------------------------------------------------------------- *)
 (* local variables (and the attributes of a device object): an association list, most recent binding first *)
@@ -135,7 +158,8 @@ Definition bind (en : env) (x : ident) (v : value) : env := (x, v) :: en.
 Record dev := mkdev {
   d_self : env;            (* attributes of the device object; the translator prints the name table *)
   d_stdin : list N;        (* characters stdin will still deliver *)
-  d_stdout : list N        (* characters written to stdout, oldest first *)
+  d_stdout : list N        (* the output stream, oldest first: the characters written to sys.stdout (devices) / the bytes
+                              written to the file opened with `with open(.., 'wb')` (writer) *)
 }.
 Definition no_dev : dev := mkdev [] [] [].
 
@@ -156,14 +180,15 @@ Definition with_self (w : world) (o : env) : world := with_dev w (mkdev o w.(w_d
 Record config := mkconfig {
   c_width : N;                     (* self.memory_width *)
   c_garbage : N;                   (* self.garbage_handling as an int (GarbageHandling.Stop = 0) *)
-  c_zeros : list (N * N)           (* self.zeros_boundaries *)
+  c_zeros : list (N * N);          (* self.zeros_boundaries *)
+  c_compress : list N -> option (list N)       (* what lzma.compress answers (None: LZMAError); only the writer uses it *)
 }.
 
 Inductive eres :=                       (* outcome of an expression *)
 | EOk (v : value) (w : world)
 | EExn (x : exn) (w : world)
 | EUnsup.
-Inductive ctl := CNormal | CReturn (v : value) | CRaise (x : exn).
+Inductive ctl := CNormal | CReturn (v : value) | CRaise (x : exn) | CContinue.
 Inductive sres :=                       (* outcome of a statement *)
 | SOk (c : ctl) (en : env) (w : world)
 | SUnsup.
@@ -173,17 +198,44 @@ Definition andthen (r : eres) (k : value -> world -> eres) : eres :=
   match r with EOk v w => k v w | EExn x w => EExn x w | EUnsup => EUnsup end.
 
 (* ---- 3. operators ------------------------------------------------------------------------------ *)
+(* an int as a Z and back *)
+Definition of_Z (z : Z) : value := match z with Zneg p => VNeg p | _ => VInt (Z.to_N z) end.
+Definition int_Z (v : value) : option Z :=
+  match v with VInt n => Some (Z.of_N n) | VNeg p => Some (Zneg p) | _ => None end.
+Definition num_Z (v : value) : option Z :=                  (* in arithmetic a bool is 0 / 1 *)
+  match v with VBool b => Some (Z.b2z b) | _ => int_Z v end.
+
+(* arithmetic in Z: used when an operand is negative *)
+Definition z_bin (o : binop) (x y : Z) : option value :=
+  match o with
+  | Add => Some (of_Z (x + y)%Z)
+  | Sub => Some (of_Z (x - y)%Z)
+  | Mul => Some (of_Z (x * y)%Z)
+  | BAnd => Some (of_Z (Z.land x y))
+  | BOr => Some (of_Z (Z.lor x y))
+  | BXor => Some (of_Z (Z.lxor x y))
+  | Shl => if (y <? 0)%Z then None else Some (of_Z (Z.shiftl x y))
+  | Shr => if (y <? 0)%Z then None else Some (of_Z (Z.shiftr x y))
+  | Mod => if (y =? 0)%Z then None else Some (of_Z (x mod y)%Z)     (* the sign of the divisor, as in Python *)
+  end.
+Definition z_cmp (o : cmpop) (x y : Z) : bool :=
+  match o with
+  | Eq => (x =? y)%Z | NotEq => negb (x =? y)%Z
+  | Lt => (x <? y)%Z | LtE => (x <=? y)%Z | Gt => (y <? x)%Z | GtE => (y <=? x)%Z
+  end.
+
+(* the same on two ints that are not negative (PyIRProps.int_bin_is_z_bin: it is z_bin) *)
 Definition int_bin (o : binop) (x y : N) : option value :=
   match o with
   | Add => Some (VInt (x + y))
-  | Sub => if y <=? x then Some (VInt (x - y)) else None      (* negative results are not modelled *)
+  | Sub => if y <=? x then Some (VInt (x - y)) else Some (of_Z (Z.of_N x - Z.of_N y))
   | Mul => Some (VInt (x * y))
   | BAnd => Some (VInt (N.land x y))
   | BOr => Some (VInt (N.lor x y))
   | BXor => Some (VInt (N.lxor x y))
   | Shl => Some (VInt (N.shiftl x y))
   | Shr => Some (VInt (N.shiftr x y))
-  | Mod => if y =? 0 then None else Some (VInt (x mod y))   (* operands are not negative: Python's % is N.modulo *)
+  | Mod => if y =? 0 then None else Some (VInt (x mod y))
   end.
 Definition bin (o : binop) (a b : value) : option value :=
   match a, b with
@@ -191,7 +243,9 @@ Definition bin (o : binop) (a b : value) : option value :=
   | VBool p, VInt y => int_bin o (N.b2n p) y                  (* a bool in arithmetic is 0 / 1 *)
   | VInt x, VBool q => int_bin o x (N.b2n q)
   | VBytes x, VBytes y => match o with Add => Some (VBytes (x ++ y)) | _ => None end
-  | _, _ => None
+  | VList x, VList y => match o with Add => Some (VList (x ++ y)) | _ => None end
+  | VBool _, VBool _ => None
+  | _, _ => match num_Z a, num_Z b with Some x, Some y => z_bin o x y | _, _ => None end     (* a negative int is involved *)
   end.
 
 Definition cmp (o : cmpop) (a b : value) : option bool :=
@@ -201,17 +255,37 @@ Definition cmp (o : cmpop) (a b : value) : option bool :=
          | Eq => x =? y | NotEq => negb (x =? y)
          | Lt => x <? y | LtE => x <=? y | Gt => y <? x | GtE => y <=? x
          end
-  | _, _ => None
+  | _, _ => match int_Z a, int_Z b with Some x, Some y => Some (z_cmp o x y) | _, _ => None end
   end.
 
 (* bool(v) *)
 Definition truth (v : value) : option bool :=
   match v with
   | VInt n => Some (negb (n =? 0))
+  | VNeg _ => Some true
   | VBool b => Some b
   | VNone => Some false
   | VBytes l => Some (match l with [] => false | _ :: _ => true end)
+  | VList l => Some (match l with [] => false | _ :: _ => true end)
   | _ => None
+  end.
+
+(* what a `for` / comprehension iterates over *)
+Definition as_list (v : value) : option (list value) :=
+  match v with VList l => Some l | VPair a b => Some [a; b] | _ => None end.
+Fixpoint enumerate_from (k : N) (l : list value) : list value :=
+  match l with [] => [] | x :: r => VPair (VInt k) x :: enumerate_from (k + 1) r end.
+Fixpoint truths (l : list value) : option (list bool) :=
+  match l with
+  | [] => Some []
+  | x :: r => match truth x, truths r with Some b, Some bs => Some (b :: bs) | _, _ => None end
+  end.
+(* l[k] = v *)
+Fixpoint set_item (l : list value) (k : nat) (v : value) : option (list value) :=
+  match l, k with
+  | [], _ => None                                            (* IndexError *)
+  | _ :: r, O => Some (v :: r)
+  | x :: r, S k' => option_map (cons x) (set_item r k' v)
   end.
 
 (* x[k]: IndexError outside the sequence *)
@@ -261,6 +335,28 @@ Fixpoint int_pairs (l : list value) : option (list (N * N)) :=
 Fixpoint zip_values (a b : list value) : list value :=
   match a, b with x :: a', y :: b' => VPair x y :: zip_values a' b' | _, _ => [] end.
 
+(* struct.pack of one unsigned little-endian field of n bytes; None = struct.error (not an int / out of range) *)
+Definition pack_field (n : nat) (v : value) : option (list N) :=
+  match int_Z v with
+  | Some z => if ((0 <=? z) && (z <? 256 ^ Z.of_nat n))%Z then Some (le_enc n (Z.to_N z)) else None
+  | None => None
+  end.
+(* one field per size; the number of arguments must be the number of fields *)
+Fixpoint pack_fields (sizes : list nat) (args : list value) : option (list N) :=
+  match sizes, args with
+  | [], [] => Some []
+  | n :: sizes', v :: args' =>
+    match pack_field n v, pack_fields sizes' args' with Some b, Some r => Some (b ++ r) | _, _ => None end
+  | _, _ => None
+  end.
+Fixpoint pack_same (n : nat) (args : list value) : option (list N) :=
+  match args with
+  | [] => Some []
+  | v :: r => match pack_field n v, pack_same n r with Some b, Some rest => Some (b ++ rest) | _, _ => None end
+  end.
+Fixpoint table_get (l : list (N * N)) (k : N) : option N :=
+  match l with [] => None | (a, v) :: r => if a =? k then Some v else table_get r k end.
+
 (* one byte <-> one character, the part of raw_unicode_escape that is the identity *)
 Definition all_below_256 (l : list N) : bool := forallb (fun c => c <? 256) l.
 
@@ -276,14 +372,20 @@ Definition all_bound (en : env) (xs : list ident) : bool :=
 Fixpoint for_pairs (step : N * N -> env -> world -> sres) (l : list (N * N)) (en : env) (w : world) : sres :=
   match l with
   | [] => SOk CNormal en w
-  | p :: r => match step p en w with SOk CNormal en1 w1 => for_pairs step r en1 w1 | other => other end
+  | p :: r => match step p en w with
+              | SOk CNormal en1 w1 | SOk CContinue en1 w1 => for_pairs step r en1 w1
+              | other => other
+              end
   end.
 
 (* `for v in l: step`, where a return / raise inside `step` leaves the loop *)
 Fixpoint for_each (step : value -> env -> world -> sres) (l : list value) (en : env) (w : world) : sres :=
   match l with
   | [] => SOk CNormal en w
-  | v :: r => match step v en w with SOk CNormal en1 w1 => for_each step r en1 w1 | other => other end
+  | v :: r => match step v en w with
+              | SOk CNormal en1 w1 | SOk CContinue en1 w1 => for_each step r en1 w1      (* `continue` ends this round only *)
+              | other => other
+              end
   end.
 (* [f v for v in l]: the elements are computed in order; an exception stops the comprehension *)
 Fixpoint comp_loop (f : value -> world -> eres) (l : list value) (w : world) : eres :=
@@ -340,6 +442,8 @@ Fixpoint eval (en : env) (e : expr) (w : world) : eres :=
   | ECall2 f a b => andthen (eval en a w) (fun va w1 => andthen (eval en b w1) (fun vb w2 => call f [va; vb] w2))
   | ECall3 f a b c => andthen (eval en a w) (fun va w1 => andthen (eval en b w1) (fun vb w2 =>
         andthen (eval en c w2) (fun vc w3 => call f [va; vb; vc] w3)))
+  | ECall4 f a b c d => andthen (eval en a w) (fun va w1 => andthen (eval en b w1) (fun vb w2 =>
+        andthen (eval en c w2) (fun vc w3 => andthen (eval en d w3) (fun vd w4 => call f [va; vb; vc; vd] w4))))
   | ETerm c => EOk (VTerm c) w
   | EUnsupported => EUnsup
   | EField f => lift (lookup w.(w_dev).(d_self) f) w            (* an unset attribute (AttributeError) is Unsupported *)
@@ -379,12 +483,13 @@ Fixpoint eval (en : env) (e : expr) (w : world) : eres :=
         andthen (eval en step w2) (fun vs w3 =>
           match vl, vh, vs with
           | VInt a, VInt b, VInt s => lift (option_map VList (range_list a b s)) w3
+          | VInt _, VNeg _, VInt s => if s =? 0 then EUnsup else EOk (VList []) w3      (* the stop is below the start *)
           | _, _, _ => EUnsup
           end)))
   | EListComp elt p it => andthen (eval en it w) (fun vi w1 =>     (* the targets are local to the comprehension *)
-        match vi with
-        | VList l => comp_loop (fun v w' => match bind_pat p v en with Some en' => eval en' elt w' | None => EUnsup end) l w1
-        | _ => EUnsup
+        match as_list vi with
+        | Some l => comp_loop (fun v w' => match bind_pat p v en with Some en' => eval en' elt w' | None => EUnsup end) l w1
+        | None => EUnsup
         end)
   | ESorted a => andthen (eval en a w) (fun va w1 =>
         match va with
@@ -396,6 +501,37 @@ Fixpoint eval (en : env) (e : expr) (w : world) : eres :=
         end)
   | EZip a b => andthen (eval en a w) (fun va w1 => andthen (eval en b w1) (fun vb w2 =>
         match va, vb with VList x, VList y => EOk (VList (zip_values x y)) w2 | _, _ => EUnsup end))
+  | ECons a r => andthen (eval en a w) (fun va w1 => andthen (eval en r w1) (fun vr w2 =>
+        match vr with VList xs => EOk (VList (va :: xs)) w2 | _ => EUnsup end))
+  | EEnumerate a => andthen (eval en a w) (fun va w1 =>
+        match as_list va with Some l => EOk (VList (enumerate_from 0 l)) w1 | None => EUnsup end)
+  | EAny a => andthen (eval en a w) (fun va w1 =>
+        match va with
+        | VList l => lift_bool (option_map (existsb (fun b => b)) (truths l)) w1
+        | _ => EUnsup
+        end)
+  | EFormat a => andthen (eval en a w) (fun _ w1 => EOk VStr w1)
+  | EHex a => andthen (eval en a w) (fun va w1 => match int_Z va with Some _ => EOk VStr w1 | None => EUnsup end)
+  | EDictGet l k => andthen (eval en k w) (fun vk w1 =>
+        match vk with
+        | VInt a => match table_get l a with Some v => EOk (VInt v) w1 | None => EExn XKeyError w1 end
+        | VNeg _ => EExn XKeyError w1
+        | _ => EUnsup
+        end)
+  | EPack sizes args => andthen (eval en args w) (fun va w1 =>
+        match va with
+        | VList l => match pack_fields sizes l with Some b => EOk (VBytes b) w1 | None => EExn XStruct w1 end
+        | _ => EUnsup
+        end)
+  | EPackN count size args => andthen (eval en count w) (fun vc w1 => andthen (eval en size w1) (fun vs w2 =>
+        andthen (eval en args w2) (fun va w3 =>
+          match vc, vs, va with
+          | VInt n, VInt s, VList l =>
+            if n =? N.of_nat (length l)
+            then match pack_same (N.to_nat s) l with Some b => EOk (VBytes b) w3 | None => EExn XStruct w3 end
+            else EExn XStruct w3                         (* pack expected n items for packing *)
+          | _, _, _ => EUnsup
+          end)))
   end.
 
 (* run an expression inside a statement: a value continues, an exception becomes the statement's outcome *)
@@ -462,17 +598,28 @@ Fixpoint exec (s : stmt) (en : env) (w : world) : sres :=
         | _ => SUnsup
         end
   | SFor p it body => on_value en (eval en it w) (fun vi w1 =>
-        match vi with
-        | VList l => for_each (fun v en1 w2 => match bind_pat p v en1 with Some en2 => exec body en2 w2 | None => SUnsup end)
-                              l en w1
-        | _ => SUnsup
+        match as_list vi with
+        | Some l => for_each (fun v en1 w2 => match bind_pat p v en1 with Some en2 => exec body en2 w2 | None => SUnsup end)
+                             l en w1
+        | None => SUnsup
         end)
+  | SContinue => SOk CContinue en w
+  | SFieldItemSet f k v =>                         (* right-hand side first, then the subscript, as for SMemSet *)
+        on_value en (eval en v w) (fun vv w1 => on_value en (eval en k w1) (fun vk w2 =>
+          match lookup w2.(w_dev).(d_self) f, vk with
+          | Some (VList l), VInt i =>
+            match set_item l (N.to_nat i) vv with
+            | Some l' => SOk CNormal en (with_self w2 (bind w2.(w_dev).(d_self) f (VList l')))
+            | None => SOk (CRaise XIndex) en w2
+            end
+          | _, _ => SUnsup
+          end))
   end.
 End Interp.
 
 (* ---- 5. calls ---------------------------------------------------------------------------------- *)
 (* methods of the IO device and of RunStatistics, by their documented meaning *)
-Definition prim (f : fname) (args : list value) (w : world) : option eres :=
+Definition prim (cfg : config) (f : fname) (args : list value) (w : world) : option eres :=
   match f, args with
   | P_io_read_bit, [] =>                                        (* next input bit, IOReadOnEOF when exhausted *)
       Some match w.(w_inp) with
@@ -494,8 +641,15 @@ Definition prim (f : fname) (args : list value) (w : world) : option eres :=
       Some (EOk (VInt (N.of_nat (length l)))                     (* the number of characters written *)
                 (with_dev w (mkdev w.(w_dev).(d_self) w.(w_dev).(d_stdin) (w.(w_dev).(d_stdout) ++ l))))
   | P_stdout_flush, [] => Some (EOk VNone w)
+  | P_file_open, [] =>                                          (* the file is created / truncated *)
+      Some (EOk VNone (with_dev w (mkdev w.(w_dev).(d_self) w.(w_dev).(d_stdin) [])))
+  | P_file_write, [VBytes b] =>
+      Some (EOk (VInt (N.of_nat (length b)))
+                (with_dev w (mkdev w.(w_dev).(d_self) w.(w_dev).(d_stdin) (w.(w_dev).(d_stdout) ++ b))))
+  | P_compress_data, [VBytes b] =>
+      Some match cfg.(c_compress) b with Some z => EOk (VBytes z) w | None => EExn (XLib 0) w end
   | (P_io_read_bit | P_io_write_bit | P_register_op_address | P_register_op
-     | P_stdin_read | P_stdout_write | P_stdout_flush), _ => Some EUnsup
+     | P_stdin_read | P_stdout_write | P_stdout_flush | P_file_open | P_file_write | P_compress_data), _ => Some EUnsup
   | _, _ => None
   end.
 
@@ -512,7 +666,7 @@ Fixpoint bind_params (ps : list ident) (args : list value) (en : env) : option e
 (* a call of a translated function runs its body in a fresh environment; falling off the end returns None.
    [depth] bounds the nesting of calls (the subset has no recursion; running out is Unsupported). *)
 Fixpoint call_at (cfg : config) (prog : program) (depth : nat) (f : fname) (args : list value) (w : world) : eres :=
-  match prim f args w with
+  match prim cfg f args w with
   | Some r => r
   | None =>
     match depth with
@@ -528,6 +682,7 @@ Fixpoint call_at (cfg : config) (prog : program) (depth : nat) (f : fname) (args
           | SOk CNormal _ w1 => EOk VNone w1
           | SOk (CReturn v) _ w1 => EOk v w1
           | SOk (CRaise x) _ w1 => EExn x w1
+          | SOk CContinue _ _ => EUnsup                  (* `continue` outside a loop does not compile *)
           | SUnsup => EUnsup
           end
         end
